@@ -16,7 +16,8 @@ RULE = ('cases = estimator (all 17) x preprocessor kind {ndarray, nested '
         'method are compared exactly; the callable preprocessor logs every '
         'consultation; failing preprocessors (5 exception types, out-of-range '
         'index into an array preprocessor) are injected into fit and into '
-        'every query method. An evaluation is one exact comparison or one '
+        'every query method; half of the preprocessors hold extra rows that '
+        'no index refers to (NaN, infinities, extreme values). An evaluation is one exact comparison or one '
         'judged exception type. distinct_nontrivial counts distinct '
         '(estimator, preprocessor kind, index dtype, dataset, method).')
 ASSUMPTIONS = ['equal formed arrays give bitwise equal results (observed; '
@@ -47,7 +48,9 @@ def cases(tier, seed):
             [DTYPES[(ei + ki) % 6], DTYPES[(ei + ki + 3) % 6]]
         for dt in dts:
           out.append({'est': name, 'params': {}, 'ds': dict(dss[r], nmax=100),
-                      'seed': seed % 1000, 'kind': kind, 'dtype': dt})
+                      'seed': seed % 1000, 'kind': kind, 'dtype': dt,
+                      # rows that no index refers to may hold anything
+                      'junk': bool((ei + ki + r + len(out)) % 2)})
   return out
 
 
@@ -82,7 +85,17 @@ def run_case(spec, j):
     dt = np.dtype('int16')
   rng = rng_for('c5', spec['ds']['seed'], name)
   kindE = E.KIND[name]
-  prep, mp = _mkprep(spec['kind'], X)
+  Xp = X
+  if spec.get('junk'):
+    # the preprocessor's source has rows that are never referenced: NaN,
+    # infinities, huge values (the formed data is the same finite data)
+    junk = np.array([[np.nan] * d, [np.inf] * d, [-np.inf] * d,
+                     [1e300] * d])
+    if X.dtype.kind != 'f':
+      junk = np.array([[np.iinfo(X.dtype).max] * d,
+                       [np.iinfo(X.dtype).min] * d])
+    Xp = np.vstack([X, junk.astype(X.dtype)])
+  prep, mp = _mkprep(spec['kind'], Xp)
   # ----- build twins with identical parameters
   fb = common.build(spec, ds)                       # B: formed data
   params = dict(fb.meta['params'])
@@ -105,11 +118,22 @@ def run_case(spec, j):
   with Quiet():
     try:
       B.fit(*argsB)
-      A.fit(*argsA)
     except Exception as e:
+      # whether fit may raise on this formed data is C03's question
       api.set_well_formed(False)
       j.skip('fit', 'raised-%s' % type(e).__name__)
       j.note('fit raised %r %s' % (e, spec))
+      return
+    try:
+      A.fit(*argsA)
+    except Exception as e:
+      # ... but the route through indices must not differ from it
+      api.set_well_formed(False)
+      j.violated('C05.fit-state',
+                 dict(det, why='fit on formed data returned, fit on '
+                      'indicators + preprocessor raised', raised=repr(e)[:300],
+                      junk_rows=bool(spec.get('junk'))),
+                 mechanism='indices-route-raised-' + type(e).__name__)
       return
   api.set_well_formed(False)
   if mp is not None:
@@ -233,6 +257,7 @@ def run_case(spec, j):
     mp.raise_exc = None
   else:
     # array-like preprocessor indexed out of range
+    n = len(Xp)
     oob = np.array([0, n + 5])
     expect_pe('C05.error-surfaces.out-of-range',
               lambda: A.transform(oob), 'transform')
